@@ -483,7 +483,7 @@ class C15(Check):
     }
     required_probes = [
         "in_place_kernel_launch", "launch_on_strided_view", "call_with_overlapping_array_arguments", "more_threads_than_outer_iterations", "policy_permuted", "policy_static", "policy_dynamic",
-        "executor_fidelity_checked_against_compiled_kernel", "thread_differential_ir", "thread_differential_compiled", "repeated_identical_requests", "marker_by_marker_reference", "production_sized_grid_compiled_alias_probe", "blocking_probe_on_production_sized_array", "target_gen", "target_ns2d", "target_ns3d", "target_passive", "target_solver", "target_interaction", "spreading_permuted_prange",
+        "executor_fidelity_checked_against_compiled_kernel", "thread_differential_ir", "thread_differential_compiled", "repeated_identical_requests", "marker_by_marker_reference", "scalar_communicator_marker_reference", "production_sized_grid_compiled_alias_probe", "blocking_probe_on_production_sized_array", "target_gen", "target_ns2d", "target_ns3d", "target_passive", "target_solver", "target_interaction", "spreading_permuted_prange",
     ]
     tiers = {
         "quick": {"runs": 800, "batch": 6, "timeout": 900},
@@ -965,6 +965,40 @@ class C15(Check):
             )
             forcing[...] = ref
 
+    def _scalar_communicator_probe(self, p, flow, body, dim, res):
+        """The communicators' scalar-field entry point (n_components=1), used directly: spreading N markers in
+        one call equals spreading them one at a time in index order."""
+        import sopht.numeric.immersed_boundary_ops as ibo
+
+        n = body.forcing_grid.num_lag_nodes
+        if n > 64:
+            return
+        real_t = flow.real_t
+        cls = ibo.EulerianLagrangianGridCommunicator2D if dim == 2 else ibo.EulerianLagrangianGridCommunicator3D
+        comm = cls(dx=flow.dx, eul_grid_coord_shift=real_t(flow.dx / 2), num_lag_nodes=n, interp_kernel_width=2, real_t=real_t, n_components=1)
+        support = np.empty((dim,) + (4,) * dim + (n,), dtype=real_t)
+        nearest = np.empty((dim, n), dtype=int)
+        weights = np.empty((4,) * dim + (n,), dtype=real_t)
+        pos = np.asarray(body.forcing_grid.position_field)
+        comm.local_eulerian_grid_support_of_lagrangian_grid_kernel(local_eul_grid_support_of_lag_grid=support, nearest_eul_grid_index_to_lag_grid=nearest, lag_positions=pos)
+        comm.interpolation_weights_kernel(interp_weights=weights, local_eul_grid_support_of_lag_grid=support)
+        start = prng.smooth_field(p["sub"], flow.velocity_field.shape[1:], real_t, 1.0, "scalar_eul")
+        lag = prng.smooth_field(p["sub"], (n,), real_t, 1.0, "scalar_lag")
+        got = start.copy()
+        comm.lagrangian_to_eulerian_grid_interpolation_kernel(eul_grid_field=got, lag_grid_field=lag, interp_weights=weights, nearest_eul_grid_index_to_lag_grid=nearest)
+        ref = start.copy()
+        for i in range(n):
+            masked = np.zeros_like(lag)
+            masked[i] = lag[i]
+            comm.lagrangian_to_eulerian_grid_interpolation_kernel(eul_grid_field=ref, lag_grid_field=masked, interp_weights=weights, nearest_eul_grid_index_to_lag_grid=nearest)
+        res.probe("scalar_communicator_marker_reference")
+        if not np.array_equal(ref, got):
+            res.violation(
+                "spreading_order",
+                {"site": "scalar_communicator", "dim": dim},
+                f"scalar Lagrangian->Eulerian spreading of {n} markers in one call differs bitwise from spreading them one at a time in index order (max dev {float(np.max(np.abs(ref.astype(np.float64) - got.astype(np.float64)))):.3e})",
+            )
+
     def _marker_order_reference(self, body, before, got, res):
         """Fixed serial marker order, decided with the implementation's own spreading kernel: spreading
         the markers one at a time in index order (all other marker forces masked to zero, which adds
@@ -1001,6 +1035,7 @@ class C15(Check):
             self._spread_both_orders(body, flow.eul_grid_forcing_field, res)
             body.time_step(1e-2)
             body.compute_flow_forces_and_torques()
+        self._scalar_communicator_probe(p, flow, body, dim, res)
         # the same request repeated many times on one long-lived object must give the same bits every
         # time: a spreading order that depends on the call history (cached / periodically refreshed
         # orderings) is not a fixed serial marker order
